@@ -59,10 +59,16 @@ impl<I: Interner> SpecializationPriorities<I> {
     }
 
     /// Store the priority of an impl (used during construction).
-    /// Panics if we have already stored the priority for this impl.
+    ///
+    /// An impl that specializes a chain of impls (`A > B > C`) is reachable
+    /// from a root along several paths (`A -> C` and `A -> B -> C`), so it can
+    /// be visited more than once: keep the highest priority seen, i.e. the
+    /// length of the longest specialization chain ending in this impl.
     fn insert(&mut self, impl_id: ImplId<I>, p: SpecializationPriority) {
-        let old_value = self.map.insert(impl_id, p);
-        assert!(old_value.is_none());
+        let priority = self.map.entry(impl_id).or_insert(p);
+        if *priority < p {
+            *priority = p;
+        }
     }
 }
 
